@@ -2417,6 +2417,19 @@ pub proof fn lemma_sig_ns_all_slash(n: Seq<char>)
     ensures sig_ns(n).len() > 0, !all_char(sig_ns(n), '/')
 { }
 
+// ---- for clean segments nothing is dropped ----
+#[verifier::external_body] /* proved in group inverse */
+pub proof fn lemma_keep_ns_all(segs: Seq<Seq<char>>)
+    requires slash_free_nonempty(segs)
+    ensures keep_ns(segs) == segs
+    decreases segs.len()
+{ }
+#[verifier::external_body] /* proved in group inverse */
+pub proof fn lemma_sig_ns_normal(segs: Seq<Seq<char>>)
+    requires segs.len() > 0, slash_free_nonempty(segs)
+    ensures sig_ns(join_segs(segs)) == join_segs(segs)
+{ }
+
 // ---- unit theory.inverse6  <= (contracts):0 ----
 // ---- part 6 (C09): phase_a / phase_b applied to canon_spec of ARBITRARY handed-out parts ----
 // (generated from part 4 by replacing the two round-trip steps with their general versions; see tools note in DESIGN.md)
